@@ -7,7 +7,8 @@ from ..core import HEADER, CASE_TYPE, CHECK, MODEL_VIEW, SHARD, CASE_TIMEOUT, ob
 ID = "C08"
 THEOREMS = ["C08_lookup", "C08_lookup_unique", "C08_isolated_symbol", "C08_isolated_label", "C08_isolated_outer",
             "C08_visible_here", "C08_export", "C08_wf_update", "C08_wf_append", "C08_dict_wf",
-            "C08_replay", "C08_replay_initial", "C08_pass_moves"]
+            "C08_replay", "C08_replay_initial", "C08_pass_moves",
+            "C08_noninterference", "C08_noninterference_labels", "C08_zderived"]
 RULE = ("generated nestings of blocks, named scopes, macro applications and loops with backward/forward/shadowing/"
         "sibling-reuse placements; metamorphic twins: consistent renaming of a label, insertion of an unrelated definition "
         "inside another scope (output must not change); out-of-scope references (must be rejected); references to "
@@ -17,13 +18,15 @@ PROVED_NOTE = ("proved: value_for = innermost enclosing definition (function vs 
                "scope; export of every symbol of a named scope as scopename.name with the same value; well-formedness of "
                "the scope tree preserved; positional replay: for every program, code generation returns to its starting scope "
                "and the generated ScopeNode/PopScopeNode moves, replayed as a pass does, enter each created scope in creation "
-               "order and return to its creator (induction over code generation). Correspondence-only (labelled partial): the "
-               "two relational statements (consistent renaming, unrelated insertion), checked as metamorphic twins.")
+               "order and return to its creator (induction over code generation); non-interference: inserting anywhere a "
+               "label/constant definition of a name no expression mentions (also not as scope.name) leaves blocks, error kind and "
+               "all other labels unchanged, for every node list and start state (simulation over all three passes). "
+               "Correspondence-only (labelled partial): consistent renaming, checked as metamorphic twins.")
 MANIFEST = {
     "text": ("Coq theorems over the Gallina model of Scope.value_for / add_symbol / restore_scope(exports) (all scope trees); "
              "model of the whole assembler tied to the code by differential runs; oracles on the implementation: renamed and "
              "insertion twins give identical blocks, out-of-scope references are rejected, scope.name references equal the label."),
-    "note": ("Partial: the rename/insertion invariance is validated by metamorphic runs, not proved. Trusted: Coq kernel/vm_compute, harness, table translator. No axioms."),
+    "note": ("Partial: the rename invariance is validated by metamorphic runs, not proved (insertion invariance is proved at node level). Trusted: Coq kernel/vm_compute, harness, table translator. No axioms."),
     "technique": "Coq proof (lookup/isolation/export) + differential correspondence + metamorphic twins",
 }
 
